@@ -1,7 +1,7 @@
 """C17 — after a cancel is accepted no further task starts and the workflow ends (engine-level: Mode-A trace differential + monitors; see harness/engine_suites.py)."""
 from __future__ import annotations
 
-from harness import engine_suites
+from harness import engine_suites, synth_suites
 
 RULE = ("random workflows (1-5 stages, every join type, scripted task outcomes incl. polling / transient / jump / suspend) x "
         "delivery schedules (fifo | random order | random + redelivery of unacknowledged messages | arbitrary incl. early re-polls), "
@@ -15,6 +15,8 @@ TRUSTED_BASE = ["Engine model (lean/Stab/Model/Engine.lean) is hand-written; tie
 
 def run(ctx) -> None:
     engine_suites.run_for(ctx, "C17")
+    # synthetic before/after stages: implementation-only family (monitors on real-engine traces, no model line)
+    synth_suites.run_for(ctx, "C17")
 
 
 def search(ctx) -> None:
@@ -22,4 +24,6 @@ def search(ctx) -> None:
 
 
 def replay(ctx, body) -> int:
+    if synth_suites.is_synth_replay(body):
+        return synth_suites.replay(ctx, body)
     return engine_suites.replay(ctx, body)
